@@ -85,7 +85,7 @@ func runProperty(t *testing.T, prop string) {
 	})
 
 	maxLen := m.N(3, 4)
-	tables := m.N(8, 40)
+	tables := m.N(8, 12)
 	nh := numHistories(maxLen)
 	m.Cases("bounded", nh*tables, func(i int64, r *rand.Rand) {
 		syms := historyByIndex(i/int64(tables), maxLen)
